@@ -1,4 +1,4 @@
-// GENERATED on every run by vlib/extract.py from /tmp/seedcheck-20768 -- do not edit
+// GENERATED on every run by vlib/extract.py from /tmp/seedcheck-32666 -- do not edit
 #![allow(unused_imports, unused_variables, unused_mut, dead_code, unused_parens, unused_braces, non_snake_case)]
 use vstd::prelude::*;
 use core::cmp::Ordering;
@@ -437,7 +437,7 @@ pub struct QualifierKey(pub SmallString);
 pub struct Qualifiers {
     pub qualifiers: Vec<(QualifierKey, SmallString)>,
 }
-// ---- unit T.PurlParts  <= purl/src/lib.rs:212 ----
+// ---- unit T.PurlParts  <= purl/src/lib.rs:213 ----
 pub struct PurlParts {
     pub namespace: SmallString,
     pub name: SmallString,
@@ -658,6 +658,12 @@ pub proof fn lemma_sorted_partition(v: Seq<(QualifierKey, SmallString)>, t: Seq<
 }
 
 
+
+/// documented panic: indexing a qualifier that is absent
+#[verifier::external_body]
+pub fn x_panic_absent() -> !
+    requires false
+{ panic!() }
 
 impl<S: AsRef<str>> MixedQualifierKey<S> {
     pub open spec fn text(&self) -> Seq<char> {
@@ -901,7 +907,7 @@ pub fn x_is_one_of2(s: &str, a: &str, b: &str) -> (r: bool)
 
 /// `write!(w, "{}", d).unwrap()` on a String: appends the text (fmt::Write for String never fails)
 #[verifier::external_body]
-pub fn x_write_display(w: &mut String, d: &str)
+pub fn x_push_display(w: &mut String, d: &str)
     ensures final(w)@ == old(w)@ + d@
 { use std::fmt::Write; write!(w, "{}", d).unwrap() }
 
@@ -1370,7 +1376,7 @@ pub struct GenericPurlBuilder<T> {
     pub package_type: T,
     pub parts: PurlParts,
 }
-// ---- unit T.GenericPurl  <= purl/src/lib.rs:251 ----
+// ---- unit T.GenericPurl  <= purl/src/lib.rs:252 ----
 pub struct GenericPurl<T> {
     pub package_type: T,
     pub parts: PurlParts,
@@ -1539,27 +1545,9 @@ pub open spec fn build_post<T: PurlShape>(t1: T, p1: PurlParts, fr: Result<(), T
     }
 }
 
-// ---- unit theory.parse  <= (contracts):0 ----
-// ---- the parser as a function of the text (C02, C05, C07, C14), written from the statements ----
-// R9: stub of std::str::FromStr with a specification of what the (user-supplied) conversion may return
-pub trait FromStr: Sized {
-    type Err;
-    /// what the conversion returns for a given text (any relation: user code)
-    spec fn from_str_rel(s: Seq<char>, r: Result<Self, Self::Err>) -> bool;
-    fn from_str(s: &str) -> (r: Result<Self, Self::Err>)
-        ensures Self::from_str_rel(s@, r);
-}
-
+// ---- unit theory.parse_phase  <= (contracts):0 ----
+// ---- the parser's two phases as specification functions (C02, C05, C07, C14) ----
 pub open spec fn has_prefix(s: Seq<char>, p: Seq<char>) -> bool { s.len() >= p.len() && s.subrange(0, p.len() as int) == p }
-
-/// `s.strip_prefix(p)` for a string pattern
-#[verifier::external_body]
-pub fn x_strip_prefix<'a>(s: &'a str, p: &str) -> (r: Option<&'a str>)
-    ensures match r {
-        Some(t) => has_prefix(s@, p@) && t@ == s@.subrange(p@.len() as int, s@.len() as int),
-        None => !has_prefix(s@, p@),
-    }
-{ s.strip_prefix(p) }
 
 /// right-to-left split at the LAST occurrence of `c`: (left part, right part if `c` occurs)
 pub open spec fn rsplit_at(s: Seq<char>, c: char) -> (Seq<char>, Option<Seq<char>>) {
@@ -1610,6 +1598,27 @@ pub open spec fn phase_b(rest: Seq<char>) -> Result<PhaseB, ParseError> {
         else { Ok(PhaseB { ns: ns->Some_0, name: dec(name_raw)->Some_0, version: version->Some_0 }) }
     }
 }
+
+
+// ---- unit theory.parse  <= (contracts):0 ----
+// ---- the parser as a function of the text (C02, C05, C07, C14), written from the statements ----
+// R9: stub of std::str::FromStr with a specification of what the (user-supplied) conversion may return
+pub trait FromStr: Sized {
+    type Err;
+    /// what the conversion returns for a given text (any relation: user code)
+    spec fn from_str_rel(s: Seq<char>, r: Result<Self, Self::Err>) -> bool;
+    fn from_str(s: &str) -> (r: Result<Self, Self::Err>)
+        ensures Self::from_str_rel(s@, r);
+}
+
+/// `s.strip_prefix(p)` for a string pattern
+#[verifier::external_body]
+pub fn x_strip_prefix<'a>(s: &'a str, p: &str) -> (r: Option<&'a str>)
+    ensures match r {
+        Some(t) => has_prefix(s@, p@) && t@ == s@.subrange(p@.len() as int, s@.len() as int),
+        None => !has_prefix(s@, p@),
+    }
+{ s.strip_prefix(p) }
 
 pub open spec fn parts_are(p: PurlParts, a: PhaseA, b: PhaseB) -> bool {
     p.namespace@ == b.ns && p.name@ == b.name && p.version@ == b.version && p.subpath@ == a.sub
@@ -1662,7 +1671,7 @@ pub fn decode_namespace(namespace: &str) -> (r: Result<SmallString, ParseError>)
         Err(e) => ns_fold(split_spec(trim_spec(namespace@, '/'), '/')) is None && e == ParseError::InvalidEscape,
     }
 { unimplemented!() }
-// ---- unit U-vtype.is_valid_package_type  <= purl/src/lib.rs:380 ----
+// ---- unit U-vtype.is_valid_package_type  <= purl/src/lib.rs:381 ----
 #[verifier::external_body]
 pub fn is_valid_package_type(package_type: &str) -> (r: bool)
     ensures r == valid_type(package_type@)
